@@ -60,9 +60,11 @@ var scenarios = map[string]func(*child){
 	"sse-retry":       scSSERetry,
 	"srv-registry":    scSrvRegistry,
 	"arg-reuse":       scArgReuse,
+	"srv-first":       scSrvFirst,
+	"cli-stdio-exit":  scCliStdioExit,
 }
 
-var scenarioOrder = []string{"srv-streamable", "srv-resume", "cli-streamable", "cli-first", "sse", "sse-first", "sse-reendpoint", "srv-stdio", "cli-stdio", "cli-stdio-first", "cli-retry", "sse-retry", "srv-registry", "arg-reuse"}
+var scenarioOrder = []string{"srv-streamable", "srv-resume", "cli-streamable", "cli-first", "sse", "sse-first", "sse-reendpoint", "srv-stdio", "cli-stdio", "cli-stdio-first", "cli-retry", "sse-retry", "srv-registry", "arg-reuse", "srv-first", "cli-stdio-exit"}
 
 func childMain(name string) {
 	if name == "stdio-server" {
@@ -514,6 +516,151 @@ func scSrvRegistry(ch *child) {
 			ch.okOps.Add(ok[k])
 		}
 	}
+}
+
+// scSrvFirst: FIRST use of freshly registered entries, many times over.  Every round builds fresh servers, registers
+// degenerate descriptors users can write as struct literals (a &Tool{…} with no input / output schema, annotations or
+// description, a &Prompt{…} without arguments, a &Resource{…} without MIME type, a template literal, nil handlers for
+// entries that are only listed) next to ordinary ones, and then lets several goroutines make the first listing, the
+// first lookups and the first calls AT THE SAME TIME: two tools/list, GetTools, GetTool, a tools/call, prompts/list +
+// prompts/get, resources/list + templates + read.  Whatever the library fills in or caches on first use is exercised
+// once per round.  Everything is in memory (the streamable server's own handler with an in-memory ResponseWriter,
+// stateless mode; the getters of the SSE and stdio servers); the goroutines leave a plain spin on one flag — edges
+// INTO them only — and count locally.  Every few rounds a stdio server on pipes gets its first three tools/list lines
+// back to back (the transport handles every line on a goroutine of its own).
+func scSrvFirst(ch *child) {
+	rounds := 120 * ch.scale
+	post := func(h http.Handler, body string) bool {
+		req := httptest.NewRequest(http.MethodPost, "http://in.memory/mcp", strings.NewReader(body))
+		req.Header.Set("Content-Type", "application/json")
+		req.Header.Set("Accept", "application/json, text/event-stream")
+		rec := httptest.NewRecorder()
+		h.ServeHTTP(rec, req)
+		return rec.Code == http.StatusOK && strings.Contains(rec.Body.String(), `"result"`)
+	}
+	degenerate := func(r registrar, k int) {
+		r.tool(&mcp.Tool{Name: "bare"}, toolWork)
+		r.tool(&mcp.Tool{Name: fmt.Sprintf("bare-%d", k), Description: ""}, nil) // only listed
+		r.tool(&mcp.Tool{Name: "half", Description: "d", RawInputSchema: nil, Annotations: nil}, toolWork)
+		r.tool(mcp.NewTool("work", mcp.WithString("tag")), toolWork)
+		r.prompt(&mcp.Prompt{Name: "bare"}, promptH)
+		r.prompt(&mcp.Prompt{Name: "listed-only"}, nil)
+		r.prompt(&mcp.Prompt{Name: "args", Arguments: []mcp.PromptArgument{{Name: "a"}}}, promptH)
+		r.resource(&mcp.Resource{Name: "bare", URI: "file:///bare"}, resourceH)
+		r.resource(&mcp.Resource{URI: "file:///noname"}, nil)
+	}
+	var total, good int64
+	for k := 0; k < rounds; k++ {
+		srv := mcp.NewServer("races-first", "1.0", mcp.WithServerLogger(hk.QuietLogger{}), mcp.WithServerPath("/mcp"), mcp.WithStatelessMode(true), mcp.WithPostSSEEnabled(k%2 == 0))
+		sse := mcp.NewSSEServer("races-first-sse", "1.0", mcp.WithSSEServerLogger(hk.QuietLogger{}))
+		std := mcp.NewStdioServer("races-first-stdio", "1.0", mcp.WithStdioServerLogger(hk.QuietLogger{}))
+		degenerate(regServer(srv), k)
+		degenerate(regSSE(sse), k)
+		degenerate(regStdio(std), k)
+		srv.RegisterResourceTemplate(&mcp.ResourceTemplate{Name: "tpl", URITemplate: mcp.NewResourceTemplate("file:///t/{x}", "tpl").URITemplate},
+			func(ctx context.Context, req *mcp.ReadResourceRequest) ([]mcp.ResourceContents, error) {
+				return []mcp.ResourceContents{mcp.TextResourceContents{URI: req.Params.URI, Text: "t"}}, nil
+			})
+		h := srv.Handler()
+		users := []func() bool{
+			func() bool { return post(h, `{"jsonrpc":"2.0","id":1,"method":"tools/list"}`) },
+			func() bool { return post(h, `{"jsonrpc":"2.0","id":2,"method":"tools/list"}`) },
+			func() bool { return len(srv.GetTools()) >= 4 },
+			func() bool { _, ok := srv.GetTool("bare"); _, ok2 := srv.GetTool("half"); return ok && ok2 },
+			func() bool {
+				return post(h, `{"jsonrpc":"2.0","id":3,"method":"tools/call","params":{"name":"bare","arguments":{"tag":"f"}}}`)
+			},
+			func() bool {
+				a := post(h, `{"jsonrpc":"2.0","id":4,"method":"prompts/list"}`)
+				b := post(h, `{"jsonrpc":"2.0","id":5,"method":"prompts/get","params":{"name":"bare"}}`)
+				return a && b
+			},
+			func() bool {
+				a := post(h, `{"jsonrpc":"2.0","id":6,"method":"resources/list"}`)
+				b := post(h, `{"jsonrpc":"2.0","id":7,"method":"resources/templates/list"}`)
+				c := post(h, `{"jsonrpc":"2.0","id":8,"method":"resources/read","params":{"uri":"file:///bare"}}`)
+				return a && b && c
+			},
+			// (the SSE and stdio servers refuse nil handlers: three tools there)
+			func() bool { return len(sse.GetTools()) >= 3 },
+			func() bool { _, ok := sse.GetTool("bare"); return ok && len(sse.GetTools()) >= 3 },
+			func() bool { _, ok := std.GetTool("bare"); return ok && len(std.GetTools()) >= 3 },
+			func() bool { return len(std.GetTools()) >= 3 },
+		}
+		var start atomic.Bool
+		res := make([]bool, len(users))
+		var wg sync.WaitGroup
+		for i, u := range users {
+			i, u := i, u
+			wg.Add(1)
+			go func() {
+				defer wg.Done()
+				defer func() { recover() }()
+				for !start.Load() {
+					runtime.Gosched()
+				}
+				res[i] = u()
+			}()
+		}
+		time.Sleep(50 * time.Microsecond)
+		start.Store(true)
+		wg.Wait()
+		for _, ok := range res {
+			total++
+			if ok {
+				good++
+			}
+		}
+		if k%15 == 0 {
+			firstStdioLists(std, &total, &good)
+		}
+	}
+	ch.ops.Add(total)
+	ch.okOps.Add(good)
+}
+
+// firstStdioLists: a fresh stdio server (entries registered, nothing listed yet) on pipes; after the handshake three
+// tools/list lines and a tools/call arrive back to back.
+func firstStdioLists(s *mcp.StdioServer, total, good *int64) {
+	inR, inW := io.Pipe()
+	outR, outW := io.Pipe()
+	ctx, cancel := context.WithCancel(context.Background())
+	served := make(chan struct{})
+	go func() { defer close(served); mcp.VerifServeStdio(ctx, s, inR, outW); outW.Close() }()
+	var answered atomic.Int64
+	readerDone := make(chan struct{})
+	go func() {
+		defer close(readerDone)
+		br := bufio.NewReaderSize(outR, 1<<20)
+		for {
+			line, err := br.ReadBytes('\n')
+			if err != nil {
+				return
+			}
+			if bytes.Contains(line, []byte(`"result"`)) {
+				answered.Add(1)
+			}
+		}
+	}()
+	lines := `{"jsonrpc":"2.0","id":1,"method":"initialize","params":{"protocolVersion":"2025-03-26","capabilities":{},"clientInfo":{"name":"v","version":"1"}}}` + "\n" +
+		`{"jsonrpc":"2.0","method":"notifications/initialized"}` + "\n"
+	inW.Write([]byte(lines))
+	for d := time.Now().Add(3 * time.Second); answered.Load() < 1 && time.Now().Before(d); {
+		time.Sleep(time.Millisecond)
+	}
+	burst := `{"jsonrpc":"2.0","id":2,"method":"tools/list"}` + "\n" + `{"jsonrpc":"2.0","id":3,"method":"tools/list"}` + "\n" +
+		`{"jsonrpc":"2.0","id":4,"method":"tools/call","params":{"name":"bare","arguments":{"tag":"s"}}}` + "\n" + `{"jsonrpc":"2.0","id":5,"method":"tools/list"}` + "\n" +
+		`{"jsonrpc":"2.0","id":6,"method":"prompts/list"}` + "\n" + `{"jsonrpc":"2.0","id":7,"method":"resources/list"}` + "\n"
+	inW.Write([]byte(burst))
+	for d := time.Now().Add(3 * time.Second); answered.Load() < 7 && time.Now().Before(d); {
+		time.Sleep(time.Millisecond)
+	}
+	*total += 7
+	*good += answered.Load()
+	cancel()
+	inW.Close()
+	<-served
+	<-readerDone
 }
 
 // rawPost / rawGet: a reference peer (plain net/http), used where the timing of the library's own client would get
@@ -1606,6 +1753,15 @@ func stdioServerProcess() {
 		}
 		return mcp.NewTextResult("notified"), nil
 	})
+	// the server goes away by itself: in the middle of a call, without answering
+	s.RegisterTool(mcp.NewTool("exit", mcp.WithString("tag")), func(ctx context.Context, req *mcp.CallToolRequest) (*mcp.CallToolResult, error) {
+		os.Exit(0)
+		return nil, nil
+	})
+	s.RegisterTool(mcp.NewTool("slow", mcp.WithString("tag")), func(ctx context.Context, req *mcp.CallToolRequest) (*mcp.CallToolResult, error) {
+		time.Sleep(150 * time.Millisecond)
+		return mcp.NewTextResult("slow"), nil
+	})
 	s.Start()
 }
 
@@ -1650,6 +1806,115 @@ func scCliStdio(ch *child) {
 		go func() { defer wg.Done(); useClient(ch, ctx, c, 2) }()
 		go func() { defer wg.Done(); c.Close() }()
 		wg.Wait()
+	}
+}
+
+// reaped: the server process of a stdio client is gone AND has been waited for.  The event: a call that was in flight
+// when the process went away comes back with "transport closed" — the transport's watcher ends the transport's context
+// only after Cmd.Wait has returned (which is also when the parent's ends of the stdout / stderr pipes are closed) —
+// and the library itself no longer finds the process (polled: its own answer, no sleep as synchronisation).
+func reaped(ch *child, c *mcp.StdioClient, kill bool) bool {
+	ctx, cancel := context.WithTimeout(context.Background(), 8*time.Second)
+	defer cancel()
+	req := &mcp.CallToolRequest{}
+	req.Params.Name = "exit"
+	if kill {
+		req.Params.Name = "slow"
+		pid := c.GetProcessID()
+		go func() {
+			time.Sleep(20 * time.Millisecond) // the call below is on its way by then; if not, it fails on the dead pipe: fine too
+			if pid > 0 {
+				syscall.Kill(pid, syscall.SIGKILL)
+			}
+		}()
+	}
+	_, err := c.CallTool(ctx, req)
+	gone := err != nil
+	for d := time.Now().Add(5 * time.Second); c.IsProcessRunning() && time.Now().Before(d); {
+		time.Sleep(time.Millisecond)
+	}
+	ok := gone && !c.IsProcessRunning()
+	ch.did(map[bool]error{true: nil, false: fmt.Errorf("not reaped: %v", err)}[ok])
+	return ok
+}
+
+// scCliStdioExit: FAULTS AT CLOSE of a stdio client.  The server process exits by itself in the middle of a call (or is
+// killed) and has been reaped by the transport before the application cleans up: Close, Close twice, Close from two
+// goroutines at once, RestartProcess, Close while another call is still in flight against a live server.  With the
+// process reaped, the closes of the stdout and stderr pipes FAIL (Cmd.Wait closed the parent's ends): the error paths
+// of the close sequence run — on whatever goroutines the library uses for them.
+func scCliStdioExit(ch *child) {
+	bg := context.Background()
+	fresh := func() *mcp.StdioClient {
+		c := newStdioClient()
+		c.RegisterNotificationHandler("notifications/message", func(*mcp.JSONRPCNotification) error { return nil })
+		ctx, cancel := context.WithTimeout(bg, 10*time.Second)
+		defer cancel()
+		_, err := c.Initialize(ctx, &mcp.InitializeRequest{})
+		ch.did(err)
+		return c
+	}
+	t0 := time.Now()
+	mark := func(what string) { fmt.Fprintf(os.Stderr, "MARK %s %v\n", what, time.Since(t0)) }
+	for round := 0; round < 2*ch.scale; round++ {
+		// exits by itself, reaped, then Close (and once more: the second one finds the transport closed)
+		mark("start")
+		c := fresh()
+		mark("fresh")
+		reaped(ch, c, false)
+		mark("reaped")
+		c.Close()
+		c.Close()
+		mark("closed")
+		// … Close from two goroutines at once
+		c = fresh()
+		reaped(ch, c, false)
+		var wg sync.WaitGroup
+		for g := 0; g < 2; g++ {
+			wg.Add(1)
+			go func() { defer wg.Done(); c.Close() }()
+		}
+		wg.Wait()
+		// … RestartProcess after the exit, then Close
+		c = fresh()
+		reaped(ch, c, false)
+		rctx, cancel := context.WithTimeout(bg, 5*time.Second)
+		mark("before restart")
+		c.RestartProcess(rctx)
+		cancel()
+		c.Close()
+		mark("after restart")
+		// killed from outside while a call is in flight, reaped, Close while the state getters run
+		c = fresh()
+		reaped(ch, c, true)
+		mark("killed reaped")
+		wg.Add(2)
+		go func() { defer wg.Done(); c.Close() }()
+		go func() {
+			defer wg.Done()
+			for i := 0; i < 20; i++ {
+				_ = c.IsProcessRunning()
+				_ = c.GetProcessID()
+				_ = c.GetState()
+			}
+		}()
+		wg.Wait()
+		// a live server: Close while a call is in flight
+		c = fresh()
+		wg.Add(2)
+		go func() {
+			defer wg.Done()
+			defer func() { recover() }()
+			ctx, cancel := context.WithTimeout(bg, 5*time.Second)
+			defer cancel()
+			req := &mcp.CallToolRequest{}
+			req.Params.Name = "slow"
+			c.CallTool(ctx, req)
+		}()
+		go func() { defer wg.Done(); time.Sleep(30 * time.Millisecond); c.Close() }()
+		wg.Wait()
+		c.Close()
+		mark("live closed")
 	}
 }
 
